@@ -140,3 +140,17 @@ claim('C09',
        'Outside the contract (model: Crash; never run): continuing a walk through a freed node, popint/getint on elements shorter than 8 bytes, qgrow addstr(NULL).',
   technique='Rocq refinement proof (invariant + simulation over histories), explicit two\'s-complement/size_t index arithmetic lemmas, source-derived wrapper table, extracted-model and extracted-spec correspondence',
   design='5.9')
+claim('C05',
+  text='Machine-checked theorems (Coq 8.16, closed under the global context) for an ARBITRARY hash function, every index range (1 upward; 0 = DEFAULT_INDEX_RANGE, regenerated from qhashtbl.c) and every history of '
+       'put/putstr/putint/get/getstr/getint/remove/clear/size/NULL-argument calls and getnext walks: the model of qhashtbl.c (chains per index, lookup by (hash,name), insert at head / replace in place, unlink first match, '
+       'clear loop, putint/getint through the decimal text and atoll, getnext with the caller cursor (hash, next pointer) and the (hash mod range)+1 restart rule) refines an association-list map '
+       '(C05_refines: same results, stored entries = map entries, size = number of distinct keys); invariant of every reachable table (C05_invariant, C05_chain_exact: chain i holds exactly the entries of index i, '
+       'no name twice, num = total); a getnext walk from a zeroed cursor over an unmodified table returns every stored key exactly once, then the end (C05_walk, C05_walk_spec); atoll(printed int64) = the integer '
+       '(C05_int_text_roundtrip, C05_int_roundtrip); no Fuel, Crash only where the caller applies getint to a value atoll reads past (C05_no_crash). '
+       'Tie: extracted model + extracted specification run in lockstep with the implementation for ranges 1,2,3,7,1000,0 over keys precomputed to collide (same slot, and constructed identical 32-bit murmur values), '
+       'comparing results, num and every chain in order with node identity and stored hash after every call; bounded-exhaustive put/remove sequences; walks complete/abandoned/restarted.',
+  note='Trusted: Coq kernel, extraction (ExtrOcamlBasic only), tools/gen_consts.py, gcc, harness/h_hashtbl.c, ocaml/d_hashtbl.ml (hand-written MurmurHash3_32, compared with the C function and a Python one on every run). '
+       'Spec undefined (excluded) for getint on a stored value without a byte that stops atoll inside the block (caller misuse; the code over-reads the heap copy). malloc(0) != NULL assumed (glibc). '
+       'No allocation failure, no concurrency, table not modified during a walk. Model tied to code by differential execution, not by a C semantics.',
+  technique='Rocq refinement proof (state relation + invariant, induction over histories), cursor-position invariant for getnext, decimal printer/parser round trip; constant translated from source; extracted-model/spec correspondence',
+  design='5.5')
